@@ -1732,13 +1732,17 @@ func (s *BgpServer) handleFSMMessage(peer *peer, e *fsmMsg) {
 				// if it is in adj-rib-out, do withdrawal
 				s.propagateUpdate(peer, pathList)
 
+				if len(llgr) == 0 {
+					// no long-lived timer will ever end this restart
+					peer.stopPeerRestarting()
+				}
 				for _, f := range llgr {
+					peer.llgrRestartTimerStarted(f)
 					endCh := make(chan struct{})
 					peer.fsm.lock.Lock()
 					peer.llgrEndChs = append(peer.llgrEndChs, endCh)
 					peer.fsm.lock.Unlock()
 					go func(family bgp.Family, endCh chan struct{}) {
-						peer.llgrRestartTimerStarted(family)
 						t := peer.llgrRestartTime(family)
 						timer := time.NewTimer(time.Second * time.Duration(t))
 
